@@ -78,3 +78,26 @@ def multiset(rng, n=None, alph=None, hi=7):
         for _ in range(rng.randint(1, 3)):
             out.append(rng.choice(out))
     return out
+
+
+# Text that reads as regular-expression (or SQL/escape) syntax when it appears as a literal: whatever writes
+# it into an expression has to keep it literal.
+LOOKALIKES = ['a{3}', 'x{2,3}y', '${1}', '{3}a', 'a+', 'a*b', 'a?', '(?:x)', '(a)', '[a-z]', '[^a]', 'a|b', '^a$', 'a.b', '.*',
+              '\\d', '\\d+', 'a\\wb', 'x\\bz', 'lit\\n', '\\\\srv\\dir', 'C:\\data\\a.txt', 'C:\\data\\b.txt', 'C:\\dir\\d1',
+              '25$', '25$ off', 'US$', 'US$5', '$', '$$', 'a$b', '%d', '100%', 'a_b', "it's", '\\', '\\Q', 'a\\E']
+
+
+def lookalikes(rng):
+    """A multiset built from a few look-alike strings, each constant across its repeats (so that an extractor has
+    to write them out literally), optionally next to ordinary strings of another shape."""
+    k = rng.choice([1, 1, 2, 3])
+    if rng.random() < 0.3:
+        fam = rng.choice([['C:\\data\\a.txt', 'C:\\data\\b.txt', 'C:\\data\\q.txt'], ['25$', '25$ off', '7$', '30$ off'],
+                          ['a{3}', 'a{3}', 'b{3}'], ['US$', 'US$5', 'US$77']])
+        out = [x for x in fam for _ in range(rng.randint(1, 3))]
+    else:
+        out = [x for x in rng.sample(LOOKALIKES, k) for _ in range(rng.randint(1, 4))]
+    if rng.random() < 0.4:
+        out += [rstr(rng, LETTERS + DIGITS, 1, 5) for _ in range(rng.randint(1, 6))]
+    rng.shuffle(out)
+    return out
